@@ -48,18 +48,43 @@ Proof. intros fuel fifo c h a f E. unfold collect_frame. rewrite E. reflexivity.
 Print Assumptions C02_unselected_frame_has_no_variables.
 
 (* each collected variable carries the object's real type name, its text cut to the limit
-   (element count for containers is the text the reader supplies), and its identity *)
+   (for containers the text is computed by the model: see C02_container_text), and its identity *)
 Theorem C02_entry_faithful :
   forall c h fuel fifo cs name o v x,
   In (v, x) (table (run fuel fifo c h (init cs [] name o))) ->
   v_ty x = o_ty (hget h (v_oid x)) /\
-  v_val x = firstn (max_str c) (o_text (hget h (v_oid x))) /\
-  v_trunc x = (max_str c <? length (o_text (hget h (v_oid x))))%nat.
+  v_val x = firstn (max_str c) (otext (hget h (v_oid x))) /\
+  v_trunc x = (max_str c <? length (otext (hget h (v_oid x))))%nat.
 Proof.
   intros c h fuel fifo cs name o v x I.
   apply (run_table_ok c h fuel fifo (init cs [] name o)) with (v := v); [intros ? ? []|exact I].
 Qed.
 Print Assumptions C02_entry_faithful.
+
+(* a container (exact dict / list / tuple / set / frozenset) is rendered as "Size: n" where n counts ALL of its
+   elements - also those beyond max_collection_size, and those the variable budget never reaches *)
+Theorem C02_container_text :
+  forall c h fuel fifo cs name o v x,
+  In (v, x) (table (run fuel fifo c h (init cs [] name o))) ->
+  o_sized (hget h (v_oid x)) = true ->
+  v_val x = firstn (max_str c) (SIZE_PREFIX ++ print_nat (kind_count (o_kind (hget h (v_oid x))))) /\
+  (forall el, o_kind (hget h (v_oid x)) = KSeq el ->
+     v_val x = firstn (max_str c) (SIZE_PREFIX ++ print_nat (length el))).
+Proof.
+  intros c h fuel fifo cs name o v x I S.
+  destruct (run_table_ok c h fuel fifo (init cs [] name o) (fun _ _ F => match F with end) v x I) as (_ & V & _).
+  unfold otext in V. rewrite S in V. split; [exact V|]. intros el K. rewrite K in V. exact V.
+Qed.
+Print Assumptions C02_container_text.
+
+Example C02_container_text_witness :
+  let h := [ {| o_ty := []; o_text := []; o_kind := KDict [ {| c_name := [120]; c_oid := 1 |} ]; o_sized := true |};
+             {| o_ty := []; o_text := []; o_kind := KSeq [2;2;2;2;2;2;2;2;2;2;2;2]%nat; o_sized := true |};
+             {| o_ty := []; o_text := [55]; o_kind := KLeaf; o_sized := false |} ] in
+  let c := {| max_vars := 10; max_coll := 2; max_depth := 5; max_str := 100 |} in
+  map (fun p => v_val (snd p)) (table (run 50 true c h (init [] [] [] 0%nat))) =
+  [ [83;105;122;101;58;32;49]; [83;105;122;101;58;32;49;50]; [55] ].
+Proof. vm_compute. reflexivity. Qed.
 
 (* the children offered for an object are its children by kind: dictionary keys, the first
    max_collection_size elements numbered from 0, attributes with the "_Class" prefix of private
